@@ -188,6 +188,11 @@ def formulas(rep):
     diff = [x for x in ldefs.get("diff", []) if x.kind == "assign"]
     ok = bool(diff) and isinstance(diff[0].value, ast.BinOp) and isinstance(diff[0].value.op, ast.Sub)
     rep.ob("O19.2", "R15", lr, ok, diff[0].stmt if diff else "diff", "per-class rank spans the complex differences of the class's reactions")
+    from ..pattern import pmatch
+    dl = [l for l in walk_local(lr.node) if isinstance(l, ast.For) and any(isinstance(x, ast.Assign) and any(norm(t_) == "diff" for t_ in x.targets) for x in ast.walk(l))]
+    oke = len(dl) == 1 and (pmatch("$s.edges()", dl[0].iter) is not None or pmatch("$s.edges", dl[0].iter) is not None)
+    rep.ob("O19.2", "SHAPE", lr, oke, dl[0].iter if dl else "for u, v in sub.edges()",
+           "one difference vector per reaction arc of the class (tree/BFS edges of the *directed* complex graph do not reach every complex)")
     sub = ldefs.get("sub", [])
     rep.ob("O19.2", "SHAPE", lr, bool(sub) and norm(sub[0].value) == "self._complex_graph.subgraph(nodes)", sub[0].stmt if sub else "sub",
            "only reactions inside the linkage class contribute")
